@@ -15,6 +15,10 @@ import (
 //
 //	busload baud defCycle N (size cycle)*N
 //
+// A size written as 1000+s means: the message has s bytes, carries a signal in its last byte
+// and a shrink by one byte was attempted (and must have been refused) before the load is
+// computed — a refused edit changes nothing (C06), so the model reads it as size s.
+//
 // Go prints floats, the model prints num/den; Same compares numerically (1e-9 relative).
 
 type busloadStream struct{ baseStream }
@@ -35,6 +39,9 @@ func (busloadStream) Gen(r *rand.Rand, tier string, idx int) []string {
 		base := 1 + r.Intn(3600000)
 		for j := 0; j < n; j++ {
 			size := r.Intn(9)
+			if size >= 1 && r.Intn(4) == 0 {
+				size += 1000
+			}
 			cyc := 0
 			switch r.Intn(5) {
 			case 0:
@@ -182,8 +189,26 @@ func (e *busloadExec) Do(line string) string {
 	var specs []spec
 	for j := 0; j < n; j++ {
 		size, cyc := atoi(f[4+2*j]), atoi(f[5+2*j])
+		refused := size >= 1000
+		size %= 1000
 		m := acmelib.NewMessage(sprintf("m%d", j), acmelib.MessageID(j), size)
 		m.SetCycleTime(cyc)
+		if refused {
+			t, err := acmelib.NewIntegerSignalType("t8", 8, false)
+			if err != nil {
+				panic(err)
+			}
+			sg, err := acmelib.NewStandardSignal("s", t)
+			if err != nil {
+				panic(err)
+			}
+			if err := m.InsertSignal(sg, (size-1)*8); err != nil {
+				panic(err)
+			}
+			if err := m.UpdateSizeByte(size - 1); err == nil {
+				e.fail("resize-not-refused", line)
+			}
+		}
 		if err := ifs[j%k].AddSentMessage(m); err != nil {
 			panic(err)
 		}
